@@ -236,7 +236,7 @@ func execLocalObserved(w *ATWorld, cs *ATCase, cid string) *localObs {
 func runC18(c *Ctx) {
 	w := GetATWorld()
 	rng := NewRng(c.Seed)
-	n := c.Budget(300, 10000)
+	n := c.Budget(300, 30000)
 	for i := 0; i < n; i++ {
 		r := rng.Fork()
 		cid := fmt.Sprintf("c18-%d", i)
